@@ -15,7 +15,7 @@
 import json
 import random
 
-from . import core, inputs, lexgen, lextrace, c01, newlines
+from . import core, inputs, lexgen, lextrace, c01, newlines, progs
 
 
 def rederive(events, at_index):
@@ -130,10 +130,17 @@ def run(tier):
         b = c["src"].encode("latin-1")
         srcs.append(b.replace(b"\n", b"\r\n"))
     srcs = list(dict.fromkeys(srcs))
+    # sources of tens of thousands of tokens: every token and position lives in 1024-entry pool blocks
+    scaled = progs.scaled_sources(check, "5", core.seed(), 700 if tier == "quick" else 4000, (300,))
+    check.cov["scaled_sources_bytes"] = [len(x) for x in scaled]
+    srcs += [x.encode("latin-1") for x in scaled]
     tasks = []
     for i, s in enumerate(srcs):
         for ver in (("7.4", "5.6") if i % 3 == 0 or tier == "thorough" else (("7.4",) if i % 3 == 1 else ("5.6",))):
-            tasks.append({"op": "analyze", "src": s.decode("latin-1"), "ver": ver})
+            tasks.append({"op": "analyze", "src": s.decode("latin-1"), "ver": ver, "limit_ms": 2000 + len(s) // 10})
+    for x in scaled:
+        tasks.append({"op": "analyze", "src": x, "ver": "7.4", "limit_ms": 60000})
+        tasks.append({"op": "analyze", "src": x, "ver": "5.6", "limit_ms": 60000})
     res = wp.run(tasks)
     ntrees = 0
     for t, r in zip(tasks, res):
@@ -141,6 +148,8 @@ def run(tier):
         if r.get("panic") or r.get("hang") or r.get("crash") or not r.get("root"):
             continue
         ntrees += 1
+        if len(t["src"]) > 50000:
+            check.cov.setdefault("scaled_token_counts", []).append(r.get("ntok"))
         src = t["src"].encode("latin-1")
         for f in r.get("fails") or []:
             if f["c"].startswith("C04."):
